@@ -146,6 +146,30 @@ def check_alias(ctx, repo, mods):
                 if not bad and sites:
                     ctx.ok("R2", tag + ":fit-calls", "%d reached .fit/.fit_transform call(s); no receiver is a constructor-parameter object "
                            "(clone / constructor result / fitted copy): %s" % (len(sites), ", ".join(sorted(site_locs))), loc)
+    # concrete subclasses supply the arguments of the anchored helpers (e.g. EnsembleForecaster.fit -> _fit_forecasters): a member that
+    # the anchored code fits must not be the constructor-parameter object of the subclass either
+    anchored = {m.relpath for m in mods}
+    constructed, subs = dependency_classes(repo, mods)
+    for q_, (c, basename) in sorted(subs.items()):
+        params = ctor_params(repo, c)
+        for meth in ENTRY:
+            hit = repo.lookup_method(c, meth)
+            if hit is None or hit[0].is_static(meth):
+                continue
+            k, fn = hit
+            s = eng.summary(fn, k.module, c, k)
+            by_param = {}
+            for ev in s.events:
+                if ev.kind == "fit" and ev.sure and ev.loc.rsplit(":", 1)[0] in anchored and ev.origin.startswith("self.") and ev.origin[5:] in params:
+                    by_param.setdefault(ev.origin, []).append(ev)
+            for origin, evs in sorted(by_param.items()):
+                where = "; ".join(sorted({"%s%s" % (e.loc, (" via " + "->".join(e.chain)) if e.chain else "") for e in evs}))
+                ctx.violation("R2", "%s:%s:%s" % (c.name, origin, meth),
+                              "%s.%s hands the constructor-parameter object(s) %s to the anchored code, which fits them without clone [%s]: fitting "
+                              "mutates the user's components and the estimator's parameters" % (c.name, meth, origin, where), evs[0].loc,
+                              witness={"receiver": origin, "sites": where})
+            if any(x[0].rsplit(":", 1)[0] in anchored for x in s.sites) and not by_param:
+                ctx.ok("R2", "%s.%s:fit-calls" % (c.name, meth), "members fitted by the anchored code are clones (hooks of %s)" % basename, ctx.loc(k.module, fn))
     ctx.count("functions_summarised", eng.stats["functions"])
     return eng
 
@@ -537,6 +561,98 @@ def check_seed_forwarding(ctx, repo, mods):
 
 
 APPLY = ("predict", "predict_proba", "transform", "inverse_transform", "predict_quantiles", "predict_interval", "decision_function")
+
+
+def check_member_seed(ctx, repo, mods):
+    """R3 (g): an estimator that owns a seed (constructor parameter random_state) and constructs another repo estimator that accepts one
+    must pass a seed derived from its own; an omitted argument falls back to the member's default (None: global numpy state)."""
+    scope = RngScope(repo, mods)
+    flow = scope.flow
+    for (m, q, fn, c) in scope.funcs:
+        if c is None or not (ctor_params(repo, c) & SEED_PARAMS):
+            continue
+        k_ = 0
+        for call in astq.calls(fn):
+            t = flow.resolve_call(call, m, c, c)
+            if t.kind != "class" or t.cls is None:
+                continue
+            init = repo.lookup_method(t.cls, "__init__")
+            if init is None:
+                continue
+            seeds = [p for p in astq.all_param_names(init[1], skip_self=True) if p in SEED_PARAMS]
+            if not seeds:
+                continue
+            b = astq.bind_call(init[1], call, skip_self=True)
+            key = "%s:member-seed:%s" % (q, t.cls.name)
+            loc = ctx.loc(m, call)
+            if b is None or "**" in b or "*" in b:
+                ctx.undecided("R3", key, "constructor arguments of %s not bound" % t.cls.name, loc)
+                continue
+            p = seeds[0]
+            if p not in b:
+                ctx.violation("R3", key, "%s constructs %s without passing a seed: the member falls back to %s=%s although the estimator owns "
+                              "self.random_state, so equal parameters and data no longer give equal results" %
+                              (q, t.cls.name, p, ast.unparse(astq.param_defaults(init[1]).get(p, ast.Constant(value=None)))), loc)
+                continue
+            ok, why = scope.seed_ok(m, fn, c, b[p])
+            ctx.check(ok, "R3", key, "%s receives a seed derived from %s" % (t.cls.name, why),
+                      "%s seeds the member %s with something not derived from self.random_state: %s" % (q, t.cls.name, why), loc)
+
+
+def check_reentrancy(ctx, repo, mods):
+    """R7 (b): an apply-type public entry that stores state (it validates and stores its arguments, e.g. the horizon) must not be re-entered
+    from its own call tree: the nested call overwrites what the outer call stored, with values that are not the caller's arguments."""
+    from .c13 import attr_writes
+    anchored = {m.relpath for m in mods}
+    constructed, subs = dependency_classes(repo, mods)
+    classes = [c for m in mods for c in classes_of(repo, m)] + [c for q_, (c, b) in sorted(subs.items())]
+    for c in classes:
+        for meth in APPLY:
+            hit = repo.lookup_method(c, meth)
+            if hit is None or hit[0].is_static(meth):
+                continue
+            k0, f0 = hit
+            if c.module.relpath not in anchored and k0.module.relpath not in anchored:
+                continue
+            seen, path_to = set(), {id(f0): [meth]}
+            work = [(k0, f0)]
+            cycle = None
+            while work and cycle is None:
+                k, fn = work.pop()
+                if id(fn) in seen:
+                    continue
+                seen.add(id(fn))
+                names = astq.param_names(fn)
+                sn = names[0] if names and not k.is_static(fn.name) else None
+                if not sn:
+                    continue
+                for call in astq.calls(fn):
+                    f = call.func
+                    if isinstance(f, ast.Attribute) and isinstance(f.value, ast.Name) and f.value.id == sn:
+                        h2 = repo.lookup_method(c, f.attr)
+                        if not h2:
+                            continue
+                        if h2[1] is f0:
+                            cycle = (path_to[id(fn)] + [meth], "%s:%s" % (k.module.relpath, call.lineno))
+                            break
+                        if id(h2[1]) not in path_to:
+                            path_to[id(h2[1])] = path_to[id(fn)] + [f.attr]
+                            work.append(h2)
+            tag = "%s.%s" % (c.name, meth)
+            if cycle:
+                stores = sorted(attr_writes(repo, c, f0, k0, must=False) - {"_is_fitted"})
+                own = sorted({a for a, v, st in astq.self_attr_stores(f0)} | {
+                    a for call in astq.calls(f0) if isinstance(call.func, ast.Attribute) and isinstance(call.func.value, ast.Name)
+                    and call.func.value.id == astq.param_names(f0)[0] and repo.lookup_method(c, call.func.attr) and call.func.attr.startswith("_set")
+                    for a in attr_writes(repo, c, repo.lookup_method(c, call.func.attr)[1], repo.lookup_method(c, call.func.attr)[0], must=False)})
+                if own:
+                    ctx.violation("R7", tag + ":re-entrant", "%s re-enters itself through %s (call at %s): the nested call stores %s again from "
+                                  "arguments chosen by the inner code, so after the outer call returns the estimator holds state that is not what "
+                                  "the caller passed (e.g. a later predict() without fh uses the wrong horizon)" %
+                                  (tag, " -> ".join(cycle[0]), cycle[1], ", ".join("self." + a for a in own)), cycle[1],
+                                  witness={"cycle": cycle[0], "stores": own})
+                    continue
+            ctx.ok("R7", tag + ":re-entrant", "the entry is not reachable from its own call tree", ctx.loc(k0.module, f0), nontrivial=False)
 
 
 def check_stored_generator(ctx, repo, mods):
@@ -1390,6 +1506,8 @@ def run(ctx):
     check_rng(ctx, repo, mods)
     check_seed_forwarding(ctx, repo, mods)
     check_stored_generator(ctx, repo, mods)
+    check_member_seed(ctx, repo, mods)
+    check_reentrancy(ctx, repo, mods)
     check_derived_state(ctx, repo, mods)
     check_apply_state_writes(ctx, repo, mods, eng)
     check_pickle(ctx, repo, mods)
